@@ -66,6 +66,33 @@ func c17Menu(w *wworld.World) []string {
 	return ops
 }
 
+// c17RotMenu: a wallet that holds proofs of two keysets of the same mint (before / after a rotation) and spends
+// amounts that need inputs from both.
+func c17RotMenu(w *wworld.World) []string {
+	var ops []string
+	bal := w.Wallets[0].W.GetBalance()
+	if len(w.Tokens) < 2 {
+		for _, x := range []int{3, 6, 9, 13} {
+			if uint64(x) <= bal {
+				ops = append(ops, fmt.Sprintf("send|0|%d|0", x), fmt.Sprintf("send|0|%d|1", x))
+			}
+		}
+	}
+	for ti := range w.Tokens {
+		ops = append(ops, fmt.Sprintf("recv|1|%d|0", ti))
+	}
+	if bal >= 12 && len(w.Wallets[0].Melts) < 1 {
+		ops = append(ops, "melt|0|9|S", "melt|0|9|F")
+	}
+	if w.Wallets[0].W.PendingBalance() > 0 {
+		ops = append(ops, "reclaim|0")
+	}
+	if w.Wallets[1].W.GetBalance() >= 3 && len(w.Tokens) < 3 {
+		ops = append(ops, "send|1|3|1")
+	}
+	return ops
+}
+
 func c17Specs(quick bool) []*wSpec {
 	two := wworld.Config{FeeA: 100, Wallets: []wworld.WalletCfg{{Default: "a"}, {Default: "a"}}}
 	swapCfg := wworld.Config{FeeA: 100, FeeB: 0, TwoMints: true, Wallets: []wworld.WalletCfg{{Default: "a"}}}
@@ -81,6 +108,7 @@ func c17Specs(quick bool) []*wSpec {
 			{Prop: "C17", Name: "C17-2w1m-fee100-q", Cfg: two, Init: []string{"mint|0|16"}, Menu: c17Menu, Depth: 3},
 			{Prop: "C17", Name: "C17-pendingmelt-q", Cfg: wworld.Config{FeeA: 0, Wallets: []wworld.WalletCfg{{Default: "a"}}}, Init: []string{"mint|0|16", "melt|0|4|P"}, Menu: c17Menu, Depth: 3},
 			{Prop: "C17", Name: "C17-mintswap-q", Cfg: swapCfg, Init: []string{"mint|0|16", "addmint|0|b"}, Menu: swapMenu, Depth: 2},
+			{Prop: "C17", Name: "C17-rotated-fee100-q", Cfg: two, Init: []string{"mint|0|7", "rotate|a|100", "mint|0|8"}, Menu: c17RotMenu, Depth: 3},
 		}
 	}
 	three := func(fa uint) wworld.Config {
@@ -90,6 +118,8 @@ func c17Specs(quick bool) []*wSpec {
 		{Prop: "C17", Name: "C17-2w1m-fee100", Cfg: two, Init: []string{"mint|0|16"}, Menu: c17Menu, Depth: 4},
 		{Prop: "C17", Name: "C17-3w2m-fee0", Cfg: three(0), Init: []string{"mint|0|16"}, Menu: c17Menu, Depth: 3},
 		{Prop: "C17", Name: "C17-3w2m-fee1000", Cfg: three(1000), Init: []string{"mint|0|16"}, Menu: c17Menu, Depth: 3},
+		{Prop: "C17", Name: "C17-rotated-fee100", Cfg: two, Init: []string{"mint|0|7", "rotate|a|100", "mint|0|8"}, Menu: c17RotMenu, Depth: 4},
+		{Prop: "C17", Name: "C17-rotated-fee1000to100", Cfg: wworld.Config{FeeA: 1000, Wallets: []wworld.WalletCfg{{Default: "a"}, {Default: "a"}}}, Init: []string{"mint|0|7", "rotate|a|100", "mint|0|8"}, Menu: c17RotMenu, Depth: 4},
 	}
 }
 
@@ -98,10 +128,22 @@ var c17All = wSpecMap(c17Specs(true), c17Specs(false))
 func init() {
 	register(&Prop{ID: "C17", Level: "model_checking", QuickBudget: 110 * time.Second, ThoroughBudget: 30 * time.Minute,
 		Run: func(c *rt.Ctx) {
-			c.Cov["rule"] = "E3 on the wallet world (real wallets on bbolt, real mints on SQLite, in-process transport, shared Lightning model): every history up to the depth bound over {mint 16, send x in {1,3,5} with / without fees, receive (same mint, other wallet, untrusted mint with and without swap-to-trusted), melt of an external 4-sat invoice x {Succeeded, Failed, Pending}, backend settles / fails the pending payment, check melt quote, reclaim, remove spent, add mint, mint-swap A->B x {payment succeeds, fails}, keyset rotation with fee 0 / 100, wallet reload}; in every state: GetBalance == sum of stored spendable proofs == sum of GetBalanceByMints, every spendable proof UNSPENT at its mint, PendingBalance == stored pending proofs which were all handed out or submitted to a melt, every plain-sent unspent proof still pending in its sender, no secret spendable twice, and for every mint outstanding ecash (issued - redeemed) == value of not-spent secrets held by wallets (spendable + pending) and tokens in flight"
+			c.Cov["rule"] = "E3 on the wallet world (real wallets on bbolt, real mints on SQLite, in-process transport, shared Lightning model): every history up to the depth bound over {mint 16, send x in {1,3,5} with / without fees, receive (same mint, other wallet, untrusted mint with and without swap-to-trusted), melt of an external 4-sat invoice x {Succeeded, Failed, Pending}, backend settles / fails the pending payment, check melt quote, reclaim, remove spent, add mint, mint-swap A->B x {payment succeeds, fails}, keyset rotation with fee 0 / 100, wallet reload}; in every state: GetBalance == sum of stored spendable proofs == sum of GetBalanceByMints, every spendable proof UNSPENT at its mint, PendingBalance == stored pending proofs which were all handed out or submitted to a melt, every plain-sent unspent proof still pending in its sender, no secret spendable twice, and for every mint outstanding ecash (issued - redeemed) == value of not-spent secrets held by wallets (spendable + pending) and tokens in flight; every swap / melt request a mint accepted gives up exactly the mint's input fee ceil(sum ppk/1000) beyond its outputs (amount + Lightning fee + change for melts), audited from the recorded HTTP exchanges; a further search starts from a wallet holding proofs of two keysets with the same fee (rotation mid-history) and spends amounts that need inputs from both"
 			runWSpecs(c, c17Specs(c.Quick()))
+			c.Cov["rule_schedules"] = "E1 on one wallet object (beyond the statement's sequential quantifier): two / three concurrent Send, SendToPubkey and Receive calls, every interleaving at wallet-store-call and HTTP-request granularity with at most B preemptions (iterative bounding 0..B); per execution: no proof returned by two sends, every send returns at least the amount asked, then all C17 invariants"
+			if c.Quick() {
+				runSched(c, "C17", []string{"W1-send-send-same-proof", "W2-send-send-one-big-proof", "W3-send-sendpk", "W4-send-receive"}, 2)
+			} else {
+				runSched(c, "C17", []string{"W1-send-send-same-proof", "W2-send-send-one-big-proof", "W3-send-sendpk", "W4-send-receive"}, 3)
+				runSched(c, "C17", []string{"W5-send-send-send"}, 2)
+			}
 		},
-		Worker: wWorker(c17All),
-		Replay: func(p string) int { return wReplay("C17", c17All, p) },
+		Worker: dispatchWorker(wWorker(c17All)),
+		Replay: func(p string) int {
+			if code, ok := replaySched("C17", p); ok {
+				return code
+			}
+			return wReplay("C17", c17All, p)
+		},
 	})
 }
